@@ -114,6 +114,7 @@ type Case struct {
 	Req       *ParseReq `json:"req"`       // mode "parse"
 	Validator *string   `json:"validator"` // httpx.SetValidator for this call: "accept" / "reject"
 	Ctype     *string   `json:"ctype"`     // httpx-json: Content-Type (default application/json)
+	Static    string    `json:"static"`    // "self": the target is the declared type selfReq (it validates itself)
 	// sequences
 	Steps  []Case `json:"steps"`
 	Procs1 bool   `json:"procs1"` // run the sequence under GOMAXPROCS(1)
@@ -481,9 +482,9 @@ func stringMap(d *Doc) (map[string][]string, []string, error) {
 
 func tagKeyOf(mode string) string {
 	switch mode {
-	case "json", "httpx-json", "yaml", "toml", "jsonmap", "jsonreader", "ojson":
+	case "json", "httpx-json", "yaml", "toml", "jsonmap", "jsonreader", "ojson", "yamlreader", "tomlbytes":
 		return "json"
-	case "key", "okey":
+	case "key", "okey", "keyvaluer":
 		return "key"
 	case "form", "httpx-form", "dform":
 		return "form"
@@ -495,6 +496,32 @@ func tagKeyOf(mode string) string {
 		return "json" // types handed to httpx.Parse carry their tags per field
 	}
 	return ""
+}
+
+// selfReq implements validation.Validator: httpx.Parse calls its Validate after the passes
+// (types made with reflect.StructOf have no methods).  tools/props/c08.py describes the same type.
+type selfReq struct {
+	A int    `form:"a,range=[1:5]"`
+	B string `json:"b,optional"`
+	C *int8  `header:"c,optional,options=1|2"`
+}
+
+var selfCalls int
+
+func (r *selfReq) Validate() error {
+	selfCalls++
+	if r.B == "bad" {
+		return fmt.Errorf("self validation failed")
+	}
+	return nil
+}
+
+// plainValuer is a mapping.Valuer over a map (for Unmarshaler.UnmarshalValuer).
+type plainValuer map[string]any
+
+func (p plainValuer) Value(key string) (any, bool) {
+	v, ok := p[key]
+	return v, ok
 }
 
 // hook is the request validator installed with httpx.SetValidator.
@@ -582,10 +609,14 @@ func runCase(c Case) (out Out) {
 		out.Tag = renderTag(tagKey, c.Type.F[0])
 	}
 	target := reflect.New(rt)
+	if c.Static == "self" {
+		target = reflect.ValueOf(&selfReq{})
+	}
+	selfBefore := selfCalls
 
 	var call func() error
 	switch c.Mode {
-	case "json", "yaml", "toml", "jsonreader", "ojson":
+	case "json", "yaml", "toml", "jsonreader", "ojson", "yamlreader", "tomlbytes":
 		if c.Raw == nil {
 			out.Fail = c.Mode + " mode needs raw"
 			return
@@ -601,10 +632,14 @@ func runCase(c Case) (out Out) {
 			call = func() error { return mapping.UnmarshalJsonReader(bytes.NewReader(raw), target.Interface()) }
 		case "yaml":
 			call = func() error { return mapping.UnmarshalYamlBytes(raw, target.Interface()) }
+		case "yamlreader":
+			call = func() error { return mapping.UnmarshalYamlReader(bytes.NewReader(raw), target.Interface()) }
+		case "tomlbytes":
+			call = func() error { return mapping.UnmarshalTomlBytes(raw, target.Interface()) }
 		case "toml":
 			call = func() error { return mapping.UnmarshalTomlReader(bytes.NewReader(raw), target.Interface()) }
 		}
-	case "key", "okey", "jsonmap":
+	case "key", "okey", "jsonmap", "keyvaluer":
 		x, err := toAny(c.Doc)
 		if err != nil {
 			out.Fail = "doc: " + err.Error()
@@ -623,6 +658,9 @@ func runCase(c Case) (out Out) {
 			call = func() error { return u.Unmarshal(m, target.Interface()) }
 		case "jsonmap":
 			call = func() error { return mapping.UnmarshalJsonMap(m, target.Interface()) }
+		case "keyvaluer":
+			u := mapping.NewUnmarshaler("key")
+			call = func() error { return u.UnmarshalValuer(plainValuer(m), target.Interface()) }
 		}
 	case "form", "path", "header", "dform":
 		sm, _, err := stringMap(c.Doc)
@@ -797,6 +835,9 @@ func runCase(c Case) (out Out) {
 		out.Verdict = "ok"
 		out.Val = dump(target.Elem())
 	}()
+	if c.Static == "self" {
+		out.Called = selfCalls > selfBefore
+	}
 	if h != nil {
 		out.Called = h.called
 		if h.called && out.Verdict == "ok" && !reflect.DeepEqual(h.seen, out.Val) {
